@@ -37,7 +37,8 @@ CONSTANTS
   ProbeOffD,   \* acceptance probes: set of ed - H0 (comfortable: C accepts those)
   OffSoon,     \* set of ed - H0 from "expires with this block" to just above the grace period, probed
                \* with an incoming expiry that is far enough away
-  BigHops      \* eu - ed - Max(d, MIND) of those probes
+  BigHops,     \* eu - ed - Max(d, MIND) of those probes
+  CoKindsUsed  \* the kinds of other per-block work laid next to the deadlines (a subset of CoKinds)
 
 ASSUME ProbeDeltas \cap Deltas = {}
 
@@ -123,13 +124,23 @@ DeadlinesOn(D) ==
 \* scenarios that get such work (all holding-cell and final-hop ones; of the others one delta and no slack)
 CoWindow == role = "final" \/ dnMode = "cell" \/ (d = MIND /\ eu - ed = d)
 \* laid on block n: next to a deadline (one block before, on it, one block after)
+\* the block in which the transaction of that work (splice / funding) is mined
+CoConfirmedIn(k, n) == IF k \in {"splice6", "spliceann", "open6", "openann"} THEN n - 5 ELSE n
+\* Not laid (a finding of its own, DESIGN.md 11.5 / the C08 entry): a splice transaction that is still
+\* unconfirmed when B goes on chain for that very channel.  B's monitor broadcasts the commitment transaction
+\* that spends the funding output locked so far; if the miner takes the (earlier broadcast) splice transaction
+\* instead, that commitment transaction is void, B broadcasts the one of the new funding only when it sees the
+\* splice confirmed, and the race CLTV_CLAIM_BUFFER = 2 * MBC was sized for is run with fewer blocks: with both
+\* confirmation delays at MBC it is lost (replay: mutants/C08/finding-unconfirmed-splice-at-go-on-chain.script.ndjson).
+CoConflicts(k, dname, D, n) == dname \in {"godn", "goup"} /\ k \in {"splice6", "splice1", "spliceann"} /\ CoConfirmedIn(k, n) > D
 CoStep(n) ==
   \/ UNCHANGED covars
   \/ /\ coK = "none" /\ CoWindow
      \* (quick or slow miner: only where transactions of B are still to be confirmed)
-     /\ \E o \in {-1, 0, 1} : \E x \in DeadlinesOn(n - o) : \E k \in CoKinds,
+     /\ \E o \in {-1, 0, 1} : \E x \in DeadlinesOn(n - o) : \E k \in CoKinds \cap CoKindsUsed,
                 f \in (IF x[1] \in {"godn", "goup"} THEN BOOLEAN ELSE {TRUE}) :
-          coK' = k /\ coH' = n /\ coS' = x[2] /\ coN' = x[1] /\ coO' = o /\ coFast' = f
+          /\ ~CoConflicts(k, x[1], n - o, n)
+          /\ coK' = k /\ coH' = n /\ coS' = x[2] /\ coN' = x[1] /\ coO' = o /\ coFast' = f
 
 \* ------------------------------------------------------------ scenarios
 Scenario(r, um, dm) ==
